@@ -69,15 +69,17 @@ def run(ctx):
         files.append(("gen5", gen(ctx, "gen", 0, 5)))
     for bn, bp in bins:
         for tag, f in files:
-            ctx.replay(bp, "structural", f, ["maps=3"], name="R2 replay %s [%s]" % (tag, bn))
+            if bn == "tomita" and not tag.startswith("und"):
+                continue      # the tag only changes the pivot choice of the clique search
+            ctx.replay(bp, "structural", f, ["maps=%d" % (1 if bn == "tomita" else 3)], name="R2 replay %s [%s]" % (tag, bn))
 
     # ---- R3: recorded outputs judged by TLC -----------------------------------------------
     if os.path.exists(os.path.join(os.path.dirname(__file__), "..", "..", "specs", "structural", "StructuralTrace.tla")):
         fd = dict(files)
         trace(ctx, b, "exh-und", ["mode=cases", "cases=" + fd["und"], "maps=1", "stride=%d" % (1 if thorough else 4)], "exh-und")
-        trace(ctx, b, "exh-dir", ["mode=cases", "cases=" + fd["dir"], "maps=1", "stride=%d" % (1 if thorough else 8)], "exh-dir")
+        trace(ctx, b, "exh-dir", ["mode=cases", "cases=" + fd["dir"], "maps=1", "stride=%d" % (2 if thorough else 8)], "exh-dir")
         trace(ctx, b, "exh-part", ["mode=cases", "cases=" + fd["part"], "maps=1", "stride=%d" % (1 if thorough else 3)], "exh-part")
-        trace(ctx, b, "random", ["mode=random", "count=%d" % (300 if thorough else 20), "maxn=40"], "random")
+        trace(ctx, b, "random", ["mode=random", "count=%d" % (120 if thorough else 20), "maxn=40"], "random")
 
     ctx.assumptions += [
         "TLC/SANY and the CommunityModules Json module are trusted",
